@@ -5,4 +5,4 @@ import sys
 sys.path[:0] = ['/repo' + "/pulser-core", '/repo' + "/pulser-simulation", "/verif"]
 from symx.replay import replay
 sys.exit(replay(check='checks.c16', kernel='phase_fp', shape={},
-                assignment={'x_bits': 9363055093560156160}, label='k4:fp_phase_below_2pi'))
+                assignment={'x_bits': 9223407221226864640}, label='k4:fp_phase_below_2pi'))
